@@ -60,6 +60,12 @@ class C09(Case):
                 x = let(Item, domain=items)
                 q = (an if quant == "an" else the)(entity(x, S.build(sp["cond"], {"x": x})))
             return q
+        if quant in ("an_setof", "the_setof"):
+            with symbolic_mode():
+                x = let(Item, domain=items)
+                self._selx = x
+                q = (an if quant == "an_setof" else the)(set_of([x], S.build(sp["cond"], {"x": x})))
+            return q
         if quant == "infer":
             with rule_mode():
                 x = let(Item, domain=items)
@@ -96,9 +102,11 @@ class C09(Case):
             try:
                 q = self._build(items)
                 with ambient(amb, q):
-                    if sp["quant"] == "the":
+                    if sp["quant"] in ("the", "the_setof"):
                         try:
                             r = q.evaluate()
+                            if sp["quant"] == "the_setof":
+                                r = r[self._selx]
                             res = ["value", self._idx(r, items)]
                         except MultipleSolutionFound:
                             res = ["multiple"]
@@ -109,6 +117,8 @@ class C09(Case):
                         if sp["quant"] in ("infer", "add", "an_rule"):
                             data["made"].append((amb, rs))
                             res = ["made", [[type(o).__name__, self._idx(getattr(o, "src", None), items)] for o in rs]]
+                        elif sp["quant"] == "an_setof":
+                            res = ["rows", [self._idx(o[self._selx], items) for o in rs]]
                         else:
                             res = ["rows", [self._idx(o, items) for o in rs]]
             except Exception as e:
@@ -177,6 +187,9 @@ def shapes(tier, seed):
               ["and", ["pf", "x"], ["cmp", "lt", ["a", "x", "b"], ["a", "x", "c"]]],
               ["or", ["PC", "x"], ["pf", "x"]], ["and", ["PC", "x"], ["pf", "x"]]]
     leaves += [["pf2", "x", 1], ["PC2", "x", 0], ["cmp", "le", ["a", "x", "b"], ["a", "x", "c"]]]
+    for q in ("an_setof", "the_setof"):
+        for c in leaves[:6]:
+            out.append(dict(quant=q, cond=c))
     for q in ("an", "the", "infer", "add", "an_rule"):
         for c in leaves:
             out.append(dict(quant=q, cond=c))
